@@ -129,6 +129,17 @@ impl<'a> ResultMetadata<'a> {
         &self.col_specs
     }
 
+    /// Verification hook: metadata with the given id and column count (no column specifications).
+    #[cfg(feature = "scylla-verif")]
+    #[doc(hidden)]
+    pub fn verif_new(id: Option<Vec<u8>>, col_count: usize) -> ResultMetadata<'static> {
+        ResultMetadata {
+            id: id.map(|id| cow_bytes::CowBytes::Owned(id.into())),
+            col_count,
+            col_specs: Vec::new(),
+        }
+    }
+
     /// Creates a new mock empty [ResultMetadata] with 0 columns.
     /// Used only for testing purposes.
     // Preferred to implementing Default, because users shouldn't be encouraged to create
